@@ -405,6 +405,10 @@ def standard_run(ctx, mod):
     else:
         idx = list(range(int(os.environ.get("VERIF_N", mod.N[ctx.tier]))))
     budget = getattr(mod, "BUDGET", DEFAULT_BUDGET)[ctx.tier]
+    if ctx.tier == "quick":
+        # the cap is a watchdog, not part of the verdict: quick case counts are sized for ~1-2 min on an
+        # idle 16-core machine, and a busy machine must not turn them into "reach unmet"
+        budget = max(budget, 720.0)
     if idx and idx[0] >= 0:
         run_cases(ctx, mod.case, idx, agg, budget=budget,
                   nworkers=getattr(mod, "WORKERS", None))
